@@ -11,6 +11,7 @@ import Mathlib.Algebra.Order.BigOperators.Ring.Finset
 import Mathlib.Analysis.Normed.Group.Basic
 import Mathlib.Tactic.FieldSimp
 import Mathlib.Tactic.Linarith
+import Mathlib.Analysis.SpecialFunctions.Sqrt
 
 namespace OdlModel.C02
 open OdlModel.Weighting Finset
@@ -352,5 +353,70 @@ theorem discr_one_sum (close1 : ℝ → Bool) (hc : Ideal close1) (specs : List 
       simp [twFn, bfac_of_allClose close1 _ _ this]
   simp only [hdW, ← Finset.mul_sum, bfac_sum]
   exact quad_prod close1 hc specs hs
+
+/-- exponent at the root of the space tree -/
+def expoOf : Space ℝ → Expo ℝ
+  | .tens _ _ p => p
+  | .discr _ _ _ p => p
+  | .prod _ _ p _ => p
+
+theorem tNorm_two_sq (close1 : ℝ → Bool) (w : TW ℝ) (n : Nat) (hw : twPos w n) (x : Nat → 𝕜) :
+    (tNorm (ops 𝕜) (roots close1) w .two n x) ^ 2 = ∑ i ∈ range n, ‖x i‖ ^ 2 * twFn w i ∧
+      0 ≤ tNorm (ops 𝕜) (roots close1) w .two n x := by
+  cases w with
+  | const c =>
+    rcases Nat.eq_zero_or_pos n with rfl | hn
+    · simp [tNorm, vecNorm, sumTo]
+    have hc : 0 < c := hw 0 hn
+    have hS : 0 ≤ ∑ i ∈ range n, ‖x i‖ * ‖x i‖ := Finset.sum_nonneg (fun i _ => mul_self_nonneg _)
+    simp only [tNorm, vecNorm, sumTo_eq_sum, roots_sqrt, ops_abs, twFn]
+    refine ⟨?_, by positivity⟩
+    rw [mul_pow, Real.sq_sqrt hc.le, Real.sq_sqrt hS, Finset.mul_sum]
+    exact Finset.sum_congr rfl (fun i _ => by ring)
+  | arr w =>
+    have hre : RCLike.re (tInner (ops 𝕜) (.arr w) n x x) = ∑ i ∈ range n, ‖x i‖ ^ 2 * w i := by
+      rw [tInner_eq_wsum, wsum_self, RCLike.ofReal_re]; rfl
+    have hS : 0 ≤ ∑ i ∈ range n, ‖x i‖ ^ 2 * w i :=
+      Finset.sum_nonneg (fun i hi => mul_nonneg (sq_nonneg _) (hw i (mem_range.mp hi)).le)
+    simp only [tNorm, roots_sqrt, ops_re, hre, twFn, max_eq_left hS]
+    exact ⟨Real.sq_sqrt hS, Real.sqrt_nonneg _⟩
+
+theorem sideFac_sq (close1 : ℝ → Bool) (a : Axis ℝ) (ha : 0 < a.fl ∧ 0 < a.fr) (k : Nat) :
+    (sideFac close1 (fun f => f ^ ((1 : ℝ) / 2)) a k) ^ 2 = sideFac close1 (fun f => f) a k := by
+  have h1 : (a.fl ^ ((1 : ℝ) / 2)) ^ 2 = a.fl := by
+    rw [← Real.sqrt_eq_rpow, Real.sq_sqrt ha.1.le]
+  have h2 : (a.fr ^ ((1 : ℝ) / 2)) ^ 2 = a.fr := by
+    rw [← Real.sqrt_eq_rpow, Real.sq_sqrt ha.2.le]
+  unfold sideFac
+  split_ifs <;> simp only [mul_pow, h1, h2, one_pow, mul_one, one_mul]
+
+theorem bfac_sq (close1 : ℝ → Bool) (axes : List (Axis ℝ)) (h : axesPos axes) (i : Nat) :
+    (bfac close1 (fun f => f ^ ((1 : ℝ) / 2)) axes i) ^ 2 = bfac close1 (fun f => f) axes i := by
+  induction axes generalizing i with
+  | nil => simp [bfac]
+  | cons a l ih =>
+    simp only [bfac, mul_pow]
+    rw [sideFac_sq close1 a (h a (by simp)), ih (fun b hb => h b (by simp [hb]))]
+
+theorem dNorm_two_sq (close1 : ℝ → Bool) (u : Bool) (axes : List (Axis ℝ)) (w : TW ℝ)
+    (hw : twPos w (axesSize axes)) (ha : axesPos axes) (x : Nat → 𝕜) :
+    (dNorm (ops 𝕜) (roots close1) u axes w .two x) ^ 2 =
+        ∑ i ∈ range (axesSize axes), ‖x i‖ ^ 2 * dW close1 u axes w .two i ∧
+      0 ≤ dNorm (ops 𝕜) (roots close1) u axes w .two x := by
+  unfold dNorm dW
+  simp only [roots_close1]
+  by_cases h : scalesBoundary close1 u axes w .two = true
+  · simp only [h, ↓reduceIte]
+    obtain ⟨h1, h2⟩ := tNorm_two_sq (𝕜 := 𝕜) close1 w (axesSize axes) hw
+      (fun i => x i * (ops 𝕜).rK (bfac close1 (fun f => (roots close1).rpow f (Expo.inv .two)) axes i))
+    refine ⟨?_, h2⟩
+    rw [h1]
+    refine Finset.sum_congr rfl (fun i _ => ?_)
+    have hb := bfac_sq close1 axes ha i
+    have hpos := bfac_pos close1 (fun f => f ^ ((1 : ℝ) / 2)) (fun f hf => Real.rpow_pos_of_pos hf _) axes ha i
+    simp only [ops_rK, roots_rpow, Expo.inv, norm_mul, RCLike.norm_ofReal, abs_of_pos hpos, mul_pow, hb]
+    ring
+  · simp only [h]
+    exact tNorm_two_sq close1 w (axesSize axes) hw x
 
 end OdlModel.C02
